@@ -139,7 +139,10 @@ def assignment_requests(ctx, deep):
                             # of a refused list is not fixed by the property (the code leaves the ones before the refusal ASSIGNED): a difference there
                             # breaks the correspondence, not the property
                             comp_moved = [k for k, ch in enumerate(ist0) if ch == "C" and ist[k] != "C"]
-                            if ok != m["ok"] or icnt != hist or comp_moved or (ok and (ist != m["st"][0] or icnt != m["cnt"][0])):
+                            # the only arrow the constructor may take is "-> ASSIGNED": an operator that is now in any other state than before (a FAILED
+                            # one put "back" to PENDING by a roll-back, say) has left the table, accepted list or refused
+                            off_table = [k for k in range(len(ist)) if ist[k] != ist0[k] and ist[k] != "A"]
+                            if ok != m["ok"] or icnt != hist or comp_moved or off_table or (ok and (ist != m["st"][0] or icnt != m["cnt"][0])):
                                 what = (f"Assignment(ops={lst}, is_resume={resume}) after the requests {pf} on the DAG {dag}: "
                                         f"{'accepted' if ok else 'refused'}, states {ist0} -> {ist}, counts {icnt}; the state machine says "
                                         f"{'accepted' if m['ok'] else 'refused'}, states {m['st'][0]}, counts {m['cnt'][0]}")
@@ -149,7 +152,7 @@ def assignment_requests(ctx, deep):
                                 if len(ctx.unproved) < 3:
                                     ctx.unproved.append({"kind": "correspondence", "component": "Assignment.__init__ (state left behind by a refused list)",
                                                          "case": case, "impl": [ok, ist, icnt], "model": m})
-                                return
+                                continue        # keep looking: a later case may show a failing input of the property itself
     finally:
         drv.close()
         ctx.sit("assignment_constructor_cases", n_cases)
